@@ -2040,6 +2040,12 @@ class Executor:
                     return cp(x)      # a fresh array with the same entries (its .data is itself, nothing masked)
                 return Tm('call:numpy.ma.masked_array', x, *a)
             return PyFn(masked_array, 'numpy.ma.masked_array')
+        if modname in ('numpy.ma', 'np.ma') and name == 'power':
+            def mapower(a, b):
+                if is_scalar(exact(a)) and is_scalar(exact(b)):
+                    return self.power(exact(a), exact(b))      # numpy.ma.power additionally masks invalid results; on reals it is the power
+                return Tm('call:lib:numpy.ma.power', a, b)
+            return PyFn(mapower, 'numpy.ma.power')
         if modname in ('numpy.ma', 'np.ma') and name == 'sum':
             return PyFn(lambda x, *a, **k: self.np_sum(x, *a, **k), 'numpy.ma.sum')
         if modname in ('numpy.random', 'np.random') and name == 'uniform':
